@@ -182,9 +182,41 @@ package absnfs
 //@ requires reply != nil && (isnil(reply.Data) || replyIsBytes(reply)) && len(reply.Verifier.Body) <= 400
 //@ modifies wlen, wdata
 //@ ensures [frame] appendFrame(valof(w), old(wlen[valof(w)])) && wlen[valof(w)] >= old(wlen[valof(w)])
-//@ ensures [header] isnil(result) ==> wlen[valof(w)] >= old(wlen[valof(w)]) + 20 && be32(wdata[valof(w)], old(wlen[valof(w)])) == reply.Header.Xid && be32(wdata[valof(w)], old(wlen[valof(w)]) + 4) == 1 && be32(wdata[valof(w)], old(wlen[valof(w)]) + 8) == reply.Status
-//@ ensures [accepted] isnil(result) && reply.Status == 0 ==> be32(wdata[valof(w)], old(wlen[valof(w)]) + 12) == reply.Verifier.Flavor && be32(wdata[valof(w)], old(wlen[valof(w)]) + 16) == vbLen(reply) && be32(wdata[valof(w)], old(wlen[valof(w)]) + 20 + roundup4(vbLen(reply))) == reply.AcceptStatus
-//@ ensures [length] isnil(result) && reply.Status == 0 ==> wlen[valof(w)] == old(wlen[valof(w)]) + 24 + roundup4(vbLen(reply)) + ite(reply.AcceptStatus == 2, 8, ite(reply.AcceptStatus == 0 && !isnil(reply.Data), replyLen(reply), 0))
-//@ ensures [mismatch-info] isnil(result) && reply.Status == 0 && reply.AcceptStatus == 2 ==> be32(wdata[valof(w)], old(wlen[valof(w)]) + 24 + roundup4(vbLen(reply))) == 3 && be32(wdata[valof(w)], old(wlen[valof(w)]) + 28 + roundup4(vbLen(reply))) == 3
+//@ ensures [reply-layout] (isnil(result) ==> wlen[valof(w)] >= old(wlen[valof(w)]) + 20 && be32(wdata[valof(w)], old(wlen[valof(w)])) == reply.Header.Xid && be32(wdata[valof(w)], old(wlen[valof(w)]) + 4) == 1 && be32(wdata[valof(w)], old(wlen[valof(w)]) + 8) == reply.Status) && (isnil(result) && reply.Status == 0 ==> be32(wdata[valof(w)], old(wlen[valof(w)]) + 12) == reply.Verifier.Flavor && be32(wdata[valof(w)], old(wlen[valof(w)]) + 16) == vbLen(reply) && be32(wdata[valof(w)], old(wlen[valof(w)]) + 20 + roundup4(vbLen(reply))) == reply.AcceptStatus) && (isnil(result) && reply.Status == 0 ==> wlen[valof(w)] == old(wlen[valof(w)]) + 24 + roundup4(vbLen(reply)) + ite(reply.AcceptStatus == 2, 8, ite(reply.AcceptStatus == 0 && !isnil(reply.Data), replyLen(reply), 0))) && (isnil(result) && reply.Status == 0 && reply.AcceptStatus == 2 ==> be32(wdata[valof(w)], old(wlen[valof(w)]) + 24 + roundup4(vbLen(reply))) == 3 && be32(wdata[valof(w)], old(wlen[valof(w)]) + 28 + roundup4(vbLen(reply))) == 3) && (isnil(result) && reply.Status != 0 ==> wlen[valof(w)] == old(wlen[valof(w)]) + 20 && be32(wdata[valof(w)], old(wlen[valof(w)]) + 12) == 1 && be32(wdata[valof(w)], old(wlen[valof(w)]) + 16) == 1)
 //@ ensures [result-bytes] isnil(result) && reply.Status == 0 && reply.AcceptStatus == 0 && !isnil(reply.Data) ==> forall(k, 0, replyLen(reply), wdata[valof(w)][old(wlen[valof(w)]) + 24 + roundup4(vbLen(reply)) + k] == unboxed(reply.Data, []byte)[k])
-//@ ensures [denied] isnil(result) && reply.Status != 0 ==> wlen[valof(w)] == old(wlen[valof(w)]) + 20 && be32(wdata[valof(w)], old(wlen[valof(w)]) + 12) == 1 && be32(wdata[valof(w)], old(wlen[valof(w)]) + 16) == 1
+
+// ---- dispatch: procedure number p is served by the handler whose contract above describes the result of p
+// (RFC 1813 procedure numbers 0..21); the table is built once by the package initialiser and never written again
+//@ table [nfs-dispatch] C14 C08 : nfsHandlers : 0=NFSProcedureHandler.handleNull, 1=NFSProcedureHandler.handleGetattr, 2=NFSProcedureHandler.handleSetattr, 3=NFSProcedureHandler.handleLookup, 4=NFSProcedureHandler.handleAccess, 5=NFSProcedureHandler.handleReadlink, 6=NFSProcedureHandler.handleRead, 7=NFSProcedureHandler.handleWrite, 8=NFSProcedureHandler.handleCreate, 9=NFSProcedureHandler.handleMkdir, 10=NFSProcedureHandler.handleSymlink, 11=NFSProcedureHandler.handleMknod, 12=NFSProcedureHandler.handleRemove, 13=NFSProcedureHandler.handleRmdir, 14=NFSProcedureHandler.handleRename, 15=NFSProcedureHandler.handleLink, 16=NFSProcedureHandler.handleReaddir, 17=NFSProcedureHandler.handleReaddirplus, 18=NFSProcedureHandler.handleFsstat, 19=NFSProcedureHandler.handleFsinfo, 20=NFSProcedureHandler.handlePathconf, 21=NFSProcedureHandler.handleCommit
+
+// a call for another version of the NFS program is answered PROG_MISMATCH with no result body
+//@ also NFSProcedureHandler.handleNFSCall
+//@ ensures [version-gate] {C14} old(call.Header.Version) != 3 ==> isnil(result1) && result0 == reply && reply.AcceptStatus == 2 && reply.Data == old(reply.Data)
+
+// ---- MOUNT v3 (RFC 1813 appendix I): mountstat3 and the result of each procedure
+//@ specdef mountstat3(s mathint) bool = s == 0 || s == 1 || s == 2 || s == 5 || s == 13 || s == 20 || s == 22 || s == 63 || s == 10004 || s == 10006
+// MNT: mountres3 = status, then for MNT3_OK fhandle3 (opaque<64>: here 8 bytes) and the auth flavor list (count, flavors)
+//@ specdef shapeMnt(r *RPCReply) bool = replyIsBytes(r) && replyLen(r) >= 4 && mountstat3(replyStatus(r)) && ite(replyStatus(r) == 0, replyLen(r) == 24 && replyWord(r, 4) == 8 && replyWord(r, 16) == 1 && replyWord(r, 20) == 1, replyLen(r) == 4)
+// DUMP: an empty mountlist (FALSE) ; EXPORT: one exportnode "/" with an empty group list, then FALSE
+//@ specdef shapeDump(r *RPCReply) bool = replyIsBytes(r) && replyLen(r) == 4 && replyWord(r, 0) == 0
+//@ specdef shapeExport(r *RPCReply) bool = replyIsBytes(r) && replyLen(r) == 20 && replyWord(r, 0) == 1 && replyWord(r, 4) == 1 && replyWord(r, 12) == 0 && replyWord(r, 16) == 0
+//@ also NFSProcedureHandler.handleMountCall
+//@ ensures [answers] {C14} isnil(result1) && result0 == reply
+//@ ensures [results-by-procedure] {C14} (old(call.Header.Version) != 1 && old(call.Header.Version) != 3 ==> reply.AcceptStatus == 2 && reply.Data == old(reply.Data)) && ((old(call.Header.Version) == 1 || old(call.Header.Version) == 3) && (old(call.Header.Procedure) == 0 || old(call.Header.Procedure) == 3 || old(call.Header.Procedure) == 4) ==> reply.Data == old(reply.Data) && (reply.AcceptStatus == old(reply.AcceptStatus) || reply.AcceptStatus == 4)) && ((old(call.Header.Version) == 1 || old(call.Header.Version) == 3) && old(call.Header.Procedure) == 1 ==> (reply.AcceptStatus == 4 && reply.Data == old(reply.Data)) || (reply.AcceptStatus == old(reply.AcceptStatus) && shapeMnt(reply))) && ((old(call.Header.Version) == 1 || old(call.Header.Version) == 3) && old(call.Header.Procedure) == 2 ==> reply.AcceptStatus == old(reply.AcceptStatus) && shapeDump(reply)) && ((old(call.Header.Version) == 1 || old(call.Header.Version) == 3) && old(call.Header.Procedure) == 5 ==> reply.AcceptStatus == old(reply.AcceptStatus) && shapeExport(reply)) && ((old(call.Header.Version) == 1 || old(call.Header.Version) == 3) && old(call.Header.Procedure) > 5 ==> reply.AcceptStatus == 3 && reply.Data == old(reply.Data))
+
+// ---- XID echo: the reply header is a copy of the call header made where the reply record is created; nothing
+// else ever stores to it (so no handler can change the XID of the reply it fills in)
+//@ writers [reply-header-writers] C14 : RPCReply.Header : NFSProcedureHandler.HandleCall, Server.handleConnectionLoop
+
+// ---- the drain answer: NFS3ERR_JUKEBOX in the *resfail of the procedure called (the failure shapes above)
+//@ specdef failShape(p mathint, r *RPCReply) bool = ite(p == 1, replyLen(r) == 4, ite(p == 3 || p == 4 || p == 5 || p == 6 || (p >= 16 && p <= 20), shapePostOp(r), ite(p == 2 || (p >= 7 && p <= 13) || p == 21, shapeWcc(r), ite(p == 14, shapeRename(r), shapeLink(r)))))
+//@ func busyReply
+//@ prop C14
+//@ requires reply != nil
+//@ modifies reply.Data, reply.AcceptStatus, wlen, wdata
+//@ ensures [same-record] result == reply
+//@ ensures [nfs-procedures] program == 100003 && procedure >= 1 && procedure <= 21 ==> reply.AcceptStatus == old(reply.AcceptStatus) && replyIsBytes(reply) && replyLen(reply) >= 4 && replyStatus(reply) == 10008 && failShape(procedure, reply)
+//@ ensures [no-result-body] program != 100003 || procedure == 0 || procedure > 21 ==> reply.Data == old(reply.Data) && reply.AcceptStatus == ite(program != 100003, 5, ite(procedure == 0, old(reply.AcceptStatus), 3))
+// HandleCall hands the drain answer the call's own program and procedure
+//@ also NFSProcedureHandler.HandleCall
+//@ callassert busyReply : [drain-answer-for-this-call] {C14} arg0 == reply && arg1 == call.Header.Program && arg2 == call.Header.Procedure
